@@ -176,6 +176,10 @@ func MutateDefs(t *rapid.T, cfg *Cfg, old *definition.PipelinesDef, gen int) (*d
 				d.StartDelay = rapid.SampledFrom(LongDelays).Draw(t, "startDelay")
 			}
 			desc = append(desc, fmt.Sprintf("%s delay=%s", p, d.StartDelay))
+		case "retention":
+			d.RetentionCount = rapid.SampledFrom(retentionCounts).Draw(t, "retentionCount")
+			d.RetentionPeriod = rapid.SampledFrom(retentionPeriods).Draw(t, "retentionPeriod")
+			desc = append(desc, fmt.Sprintf("%s retention count=%d period=%s", p, d.RetentionCount, d.RetentionPeriod))
 		case "conc":
 			d.Concurrency = rapid.IntRange(1, 3).Draw(t, "concurrency")
 			desc = append(desc, fmt.Sprintf("%s concurrency=%d", p, d.Concurrency))
